@@ -437,6 +437,55 @@ fn ep_c11(s: &mut S, r: &mut Rng, maxc: usize, maxr: usize) {
     if !s.alive(a) {
         return;
     }
+    // states that dump() has to re-create: saved contexts on both screens that disagree with the
+    // current modes, a wrap-pending cursor, customised tabs / charsets / margins
+    if r.chance(1, 2) {
+        let (c, rr) = s.vt(a).size();
+        for screen in 0..2 {
+            if r.chance(1, 2) {
+                continue;
+            }
+            let t = if screen == 0 { gen::leave_alt(r) } else { gen::enter_alt(r) };
+            s.feed_str(a, &t, true);
+            let mut pre = String::new();
+            if r.chance(1, 2) {
+                pre.push_str("\x1b[?7l");
+            }
+            if r.chance(1, 2) {
+                pre.push_str("\x1b[?6h");
+            }
+            pre.push_str(&format!("\x1b[{};{}H", r.range(1, rr), r.range(1, c)));
+            if r.chance(1, 2) {
+                pre.push_str(&gen::sgr_small(r));
+            }
+            s.feed_str(a, &pre, true);
+            let t = gen::save(r);
+            s.feed_str(a, &t, true);
+            let mut post = String::new();
+            if r.chance(2, 3) {
+                post.push_str("\x1b[?7h");
+            }
+            if r.chance(2, 3) {
+                post.push_str("\x1b[?6l");
+            }
+            if !post.is_empty() {
+                s.feed_str(a, &post, true);
+            }
+        }
+        if r.chance(1, 2) {
+            let t = if r.chance(1, 2) { gen::leave_alt(r) } else { gen::enter_alt(r) };
+            s.feed_str(a, &t, true);
+        }
+        if s.alive(a) && r.chance(2, 3) {
+            // park the cursor in the wrap-pending position
+            let (c, rr) = s.vt(a).size();
+            let line: String = std::iter::repeat('w').take(c).collect();
+            s.feed_str(a, &format!("\x1b[{};1H{}", r.range(1, rr), line), true);
+            if r.chance(1, 4) {
+                s.feed_str(a, "\x1b[?7l", true);
+            }
+        }
+    }
     // optionally cut inside a sequence
     let mut rest = String::new();
     if r.chance(1, 3) {
@@ -489,10 +538,16 @@ fn ep_c12(s: &mut S, r: &mut Rng, maxc: usize, maxr: usize) {
     let b = s.new_vt(c, rr, lim);
     let d = s.new_vt(c, rr, lim);
     let rounds = r.range(1, 3);
+    let style = r.n(3);
     for _ in 0..rounds {
         let mut input = String::new();
         for _ in 0..r.range(1, 10) {
-            input.push_str(&gen::token(r, &GENERAL, c, rr));
+            // scroll-heavy inputs make the end-of-call trim matter (limit 0, alternate screen)
+            if style == 0 || (style == 1 && r.chance(1, 2)) {
+                input.push_str(&scrolly(r, c, rr));
+            } else {
+                input.push_str(&gen::token(r, &GENERAL, c, rr));
+            }
         }
         if r.chance(1, 4) {
             input = coarse_string(r, c, rr);
@@ -534,7 +589,13 @@ fn scrolly(r: &mut Rng, c: usize, rr: usize) -> String {
         6 => gen::csi1(gen::capped(gen::count(r, rr), 30), "S", r),
         7 => "\x1b[1;1H\x1b[M".to_string(),
         8 => gen::csi1(gen::capped(gen::count(r, rr), 30), "M", r),
-        9 => gen::margins(r, rr),
+        9 => {
+            if rr >= 3 && r.chance(1, 2) {
+                format!("\x1b[1;{}r", r.range(2, rr - 1)) // top-anchored region that stops short of the last row
+            } else {
+                gen::margins(r, rr)
+            }
+        }
         10 => gen::alt_screen(r),
         11 => gen::csi2(gen::count(r, rr), gen::count(r, c), "H", r),
         12 => gen::sgr_small(r),
